@@ -266,7 +266,7 @@ class Check:
                 'cases': s.stats['cases'], 'queries_discharged': s.stats['queries'], 'sat': s.stats['sat'], 'unsat': s.stats['unsat'],
                 'unknown': s.stats['unknown'], 'feasibility_answers_from_cached_model': s.stats['model_hits'],
                 'solver_s': round(s.stats['solver_s'], 2), 'forks': s.stats['forks'],
-                'terminal_kinds': s.kinds, 'bounds': s.bounds, 'obligations': s.obligations,
+                'terminal_kinds': s.kinds, 'bounds': s.bounds, 'obligation_list': s.obligations,
                 'functions_encoded': sorted(s.used_fns)[:400], 'std_models_used': sorted(s.used_models),
                 'mir': getattr(s, 'mir_info', None), 'differential_cases': s.diff_cases, 'witness_replays': s.replays,
                 'known_findings_hit': s.known_hits, 'inconclusive': s.inconclusive[:10], 'notes': s.notes,
